@@ -972,6 +972,28 @@ fn sec_filter_response(s: &mut Session, cx: &Ctx, rng: &mut Rng, n_cfg: usize, n
 	s.notes.push(format!("filter: {} measured responses compared with the prototype + bilinear transform; worst |H_meas - H_spec| / (|H_spec| + 0.2) = {:.3e} at {}", st.count, st.worst_rel, st.worst_at));
 }
 
+/// outside the guard of the response theorems (filter_low_cutoff_clamped_refuted): a requested frequency
+/// below fs/10000 is clamped.  Replayed on the implementation and recorded as a note.
+fn sec_low_cutoff_note(s: &mut Session, cx: &Ctx) {
+	let (sr, fc, res) = (192000u32, 10.0f64, 0.0f64);
+	let k = 2.0 - 1.9 * res;
+	let d = Filter { mode: 0, cutoff: fc, res, mix: 1.0 };
+	s.eval_only("witness_low_cutoff_clamped");
+	let clamped = sr as f64 * 1e-4;
+	if let Some((hs, tail)) = measure_ir(cx, &d, sr, ir_len(sr, fc, k), &[fc, clamped]) {
+		let (at_req, at_clamp) = (hs[0].abs(), hs[1].abs());
+		let design = 1.0 / k;
+		if tail <= 1e-6 && close(at_clamp, design, 5e-3, 0.0) && !close(at_req, design, 5e-2, 0.0) {
+			s.notes.push(format!(
+				"witness (outside the guard fc >= fs/10000): {:?} @ {sr} Hz has the corner gain 1/k = {design} at {clamped} Hz (measured {at_clamp:.4}), not at the requested {fc} Hz (measured {at_req:.4}): cutoff/sample_rate is clamped to [0.0001, 0.5]",
+				d
+			));
+		} else {
+			s.notes.push(format!("low-cutoff witness no longer reproduces: |H({fc} Hz)| = {at_req:.4}, |H({clamped} Hz)| = {at_clamp:.4}, tail {tail:e}"));
+		}
+	}
+}
+
 fn sec_eq_response(s: &mut Session, cx: &Ctx, rng: &mut Rng, n_cfg: usize) {
 	let mut st = RespStats { worst_rel: 0.0, worst_at: String::new(), count: 0 };
 	for i in 0..n_cfg {
@@ -1346,15 +1368,16 @@ pub fn run(args: &Args) {
 		"one evaluation = one built-in effect built by its public builder at one sample rate and parameter setting, driven with a probe signal (impulse, sine pair, constant level, noise) and compared with the textbook specification of its transfer behaviour; model cases = specification evaluated in binary32 by coqc (bit-exact) or C13 model traces; distinct = distinct (effect, parameters, rate, input)",
 	);
 	let cx = Ctx { info: MockInfoBuilder::new().build() };
-	sec_volume(&mut s, &cx, &mut rng, 40 * big);
-	sec_panning(&mut s, &cx, &mut rng, 40 * big);
-	sec_distortion(&mut s, &cx, &mut rng, 60 * big);
-	sec_delay(&mut s, &cx, &mut rng, 30 * big, 300 * big);
+	sec_volume(&mut s, &cx, &mut rng, 80 * big);
+	sec_panning(&mut s, &cx, &mut rng, 80 * big);
+	sec_distortion(&mut s, &cx, &mut rng, 100 * big);
+	sec_delay(&mut s, &cx, &mut rng, 60 * big, 300 * big);
 	sec_delay_fx(&mut s, &cx, &mut rng, 60 * big);
-	sec_traces(&mut s, &cx, &mut rng, 6 * big);
+	sec_traces(&mut s, &cx, &mut rng, 10 * big);
 	sec_filter_response(&mut s, &cx, &mut rng, 400 * big, 100 * big);
 	sec_eq_response(&mut s, &cx, &mut rng, 300 * big);
-	sec_reverb(&mut s, &cx, &mut rng, 12 * big, 40 * big, 12 * big);
+	sec_low_cutoff_note(&mut s, &cx);
+	sec_reverb(&mut s, &cx, &mut rng, 20 * big, 40 * big, 12 * big);
 	sec_compressor(&mut s, &cx, &mut rng, 150 * big);
 	s.finish();
 }
